@@ -80,6 +80,30 @@ def run (op : String) (a : Json) : Option (Except String Json) :=
         | k, _ => .error s!"bad kind/arity {k}"
       let ka ← key x; let kb ← key y
       pure <| ok (jList jBool ([CmpOp.eq, .ne, .lt, .le, .gt, .ge].map (·.apply ka kb)))
+  | "date.timeline" => some do
+      let kind ← getStr a "kind"; let v ← ints a "v"
+      match String.ofList kind, v with
+      | "time", [h, mi, s, f, o] => do
+          pure <| ok (jInt (XmlTime.timeline ⟨← req h, ← req mi, ← req s, ← req f, o⟩))
+      | "datetime", [y, m, d, h, mi, s, f, o] => do
+          pure <| ok (jInt (XmlDateTime.timeline ⟨← req y, ← req m, ← req d, ← req h, ← req mi, ← req s, ← req f, o⟩))
+      | k, _ => .error s!"bad kind/arity {k}"
+  | "date.hash" => some do
+      let kind ← getStr a "kind"; let v ← ints a "v"
+      match String.ofList kind, v with
+      | "time", [h, mi, s, f, o] => do
+          pure <| ok (jInt (XmlTime.hash ⟨← req h, ← req mi, ← req s, ← req f, o⟩))
+      | "datetime", [y, m, d, h, mi, s, f, o] => do
+          pure <| ok (jInt (XmlDateTime.hash ⟨← req y, ← req m, ← req d, ← req h, ← req mi, ← req s, ← req f, o⟩))
+      | k, _ => .error s!"bad kind/arity {k}"
+  | "std.instant" => some do
+      let kind ← getStr a "kind"; let v ← ints a "v"
+      match String.ofList kind, v with
+      | "time", [h, mi, s, us, u] => do
+          pure <| ok (jInt (PyTime.instantNs ⟨← req h, ← req mi, ← req s, ← req us, u⟩))
+      | "datetime", [y, m, d, h, mi, s, us, u] => do
+          pure <| ok (jInt (PyDateTime.instantNs ⟨← req y, ← req m, ← req d, ← req h, ← req mi, ← req s, ← req us, u⟩))
+      | k, _ => .error s!"bad kind/arity {k}"
   | "date.days_from_civil" => some do
       let v ← ints a "v"
       match v with
